@@ -18,7 +18,10 @@ MANIFEST = {
             "C14_reassembly_prefix (the same after every prefix of the stream), C14_chunking_unobservable (= Spec stream_parse of the "
             "concatenated bytes), C14_raw (raw receiver: every non-empty chunk unmodified, in order), C14_safe / C14_never_fails (the repaired code on "
             "EVERY input -- arbitrary bytes, arbitrary chunking: never an out-of-bounds read of the data, never a failed assert, always "
-            "terminates within fuel 2*count+2; invariant of the reachable states). The theorems are about Model/Conn.v, "
+            "terminates within fuel 2*count+2; invariant of the reachable states). The __arm__ configuration (fixed 512 byte buffer, uint16 "
+            "count, exceed flag; Model/ConnArm.v) is a second model: C14_reassembly_arm (all streams whose messages are <= the largest message "
+            "size, chunks <= FRAGMENT_BUF_SIZE - largest + 1, for every announced LargestMessageSize), C14_safe_arm (the repaired __arm__ code "
+            "on every input), C14_reassembly_arm_chunk_bound_refuted (the chunk bound is forced: K-C14-3). The theorems are about Model/Conn.v, "
             "a function-by-function model of the non-__arm__ branch of IConnection.cpp with explicit uint32 wrap-around, explicit "
             "out-of-bounds / assert / non-termination outcomes, and the header layout regenerated from MsgHeader.h (Gen/CxxConn.v).",
     "note": "Trusted: Coq 8.16.1 kernel; no axioms; translator/cxxconn.py (header layout, parameter widths, preamble byte order, function "
@@ -36,7 +39,9 @@ RULE = ("(a) exhaustive: every single-message stream with a payload of <= 2 (qui
         "(c) random well-formed streams (0..6 messages, payload 0..40 or up to 70000 bytes, payload bytes biased to the preamble bytes, "
         "fillers free of p0, random preambles incl. equal bytes and zero bytes) under random chunkings incl. empty chunks: model vs code "
         "and code vs message list vs Spec stream_parse; (d) malformed streams (garbage, lone p0, lying/truncated headers): model vs code; "
-        "(e) raw receiver: chunks vs deliveries. A case = one (preamble, chunk list); distinct = distinct (preamble, chunk list); "
+        "(e) raw receiver: chunks vs deliveries; (f) the same probe built with -D__arm__: random LargestMessageSize (0..65556), well-formed "
+        "streams inside the domain of C14_reassembly_arm (deliveries = messages), well-formed streams of any size and malformed streams "
+        "under any chunking: model vs code on status, count, exceed flag, required, deliveries and the WHOLE fixed buffer; no sanitizer report. A case = one (preamble, chunk list); distinct = distinct (preamble, chunk list); "
         "non-trivial = at least one message delivered or at least one byte left pending / skipped")
 ASSUMPTIONS = [
     "C14_reassembly: every message has header + payload < 2^32 bytes (OnMessageReceived takes a uint32 count; the repaired code discards "
@@ -44,7 +49,9 @@ ASSUMPTIONS = [
     "every chunk: length + 8 <= 2^32 (count is a uint32 and uint32 totalFragmentedByteCount = count + pending bytes must not wrap)",
     "fillers between messages do not contain the preamble's first byte (as in the property statement)",
     "a message receiver is installed before the first byte arrives and the preamble does not change in between",
-    "non-__arm__ build (std::vector fragment buffer); the __arm__ branch with its fixed 512-byte buffer is not modelled",
+    "C14_reassembly_arm (__arm__ build): every message <= min(LargestMessageSize(), FRAGMENT_BUF_SIZE) bytes and every chunk <= "
+    "FRAGMENT_BUF_SIZE - that + 1 bytes (K-C14-3 otherwise); the __arm__ branch needs printf and DEBUG_CODE from the build "
+    "(harness/stubs/arm_prelude.h), on x86 -D__arm__ only selects the branch; the fixed buffer is zeroed by the probe (the class leaves it uninitialised)",
 ]
 TRUSTED = [
     "Coq 8.16.1 kernel (coqc, full .vo build; vm_compute; coqchk in the thorough tier)",
@@ -177,12 +184,124 @@ def run(ctx):
             _run(ctx, probe, exe)
         finally:
             probe.close()
+        if not enough(ctx):
+            run_arm(ctx, d)
+
+
+# ---------------------------------------------------------------- the __arm__ configuration
+
+K3 = None
+
+
+def k3_case():
+    """K-C14-3: 100 byte message, 50 bytes pending, next chunk 500 bytes (50 + 500 > FRAGMENT_BUF_SIZE)."""
+    p = b"\xaa\x55"
+    m100, m28 = conn.message(p, 1, b"\x07" * 92), conn.message(p, 1, b"\x07" * 20)
+    s = m100 + m28 * 16 + m28[:2]
+    return {"arm": True, "largest": 512, "preamble": p, "chunks": [s[:50], s[50:]], "expected": [m100] + [m28] * 16,
+            "finding_key": "arm:chunk-exceeds-buffer"}
+
+
+def arm_exec(ctx, probe, p, largest, chunks):
+    """(model outcome or None, real outcome) for one vector of the __arm__ build."""
+    probe.ask("L %d" % largest)
+    r = conn.parse_arm(probe.ask("M %s %s" % (p.hex(), " ".join(conn.hx(c) for c in chunks)))[0])
+    m = conn.model_arm(ctx.km.call("conn_feed_arm", p, str(largest).encode(), chunks)) if ctx.km is not None else None
+    return m, r
+
+
+def arm_replay(probe, data):
+    probe.ask("L %d" % data.get("largest", 512))
+    r = conn.parse_arm(probe.ask("M %s %s" % (data["preamble"].hex(), " ".join(conn.hx(c) for c in data["chunks"])))[0])
+    if r[0] == "crash":
+        return False
+    exp = data.get("expected")
+    return True if exp is None else (r[5] == exp)
+
+
+def run_arm(ctx, d):
+    rng = ctx.rng
+    exe, out = conn.compile_probe_arm(d)
+    if exe is None:
+        ctx.tie_broken("the probe does not compile against the __arm__ branch (-D__arm__ -include harness/stubs/arm_prelude.h)", out[-2000:])
+        return
+    probe = conn.Probe(exe)
+    try:
+        cap = int(ctx.km.call("conn_arm_cap")) if ctx.km is not None else 512
+        for path in sorted(glob.glob(os.path.join(VERIF, "corpus", "C14", "arm-*.json"))):
+            data = unjson(json.load(open(path)))
+            ctx.case(("corpus", path))
+            if not arm_replay(probe, data):
+                ctx.violation("corpus case %s fails" % os.path.basename(path), data)
+        n = ctx.budget(2500, 40000)
+        for i in range(n):
+            if enough(ctx):
+                break
+            p = conn.random_preamble(rng)
+            largest = rng.choice([512, 512, 256, 256, 64, 40, 16, 8, 5, 0, 513, 1000, 65535, 65536 + 20])
+            eff = min(largest % 65536, cap)
+            k = rng.random()
+            if k < 0.4 and eff >= 8:
+                # the domain of C14_reassembly_arm: messages <= largest, chunks <= cap - largest + 1
+                items, tail = conn.arm_stream(rng, p, eff, fitting=True)
+                s = conn.stream_of(items, tail)
+                chunks = conn.chunking_within(rng, s, cap - eff + 1)
+                kind, msgs = "arm_domain", [m for _f, m in items]
+            elif k < 0.65:
+                items, tail = conn.arm_stream(rng, p, eff, fitting=False)
+                s = conn.stream_of(items, tail)
+                chunks = conn.random_chunking(rng, s) if rng.random() < 0.5 else conn.coarse_chunking(rng, s, maxcuts=5)
+                kind, msgs = "arm_wellformed_any_size", [m for _f, m in items]
+            else:
+                s = conn.malformed_stream(rng, p, maxlen=rng.choice([60, 700, 1500]))
+                chunks = conn.random_chunking(rng, s) if rng.random() < 0.6 else conn.coarse_chunking(rng, s, maxcuts=4)
+                kind, msgs = "arm_malformed", None
+            m, r = arm_exec(ctx, probe, p, largest, chunks)
+            ctx.case(("arm", p, largest, tuple(chunks)), nontrivial=bool(s))
+            ctx.count(kind)
+            if r[0] == "crash":
+                ctx.violation("__arm__ build: sanitizer report / crash of the real code (%s)" % kind,
+                              {"arm": True, "largest": largest, "preamble": p, "chunks": chunks, "expected": None,
+                               "detail": r[6][:600], "finding_key": "arm:memory-error"})
+                continue
+            if m is not None:
+                if m[0] != "ok" and len(ctx.broken) < MAX_REPORTS:
+                    ctx.tie_broken("extracted __arm__ model ends with %r although C14_safe_arm is proved" % m[0],
+                                   {"preamble": p.hex(), "largest": largest, "chunks": [c.hex() for c in chunks]})
+                elif m != r[:6] and len(ctx.broken) < MAX_REPORTS:
+                    ctx.tie_broken("correspondence IConnection (__arm__) vs ConnArm.feed_arm (%s)" % kind,
+                                   {"preamble": p.hex(), "largest": largest, "chunks": [c.hex() for c in chunks],
+                                    "model": repr((m[0], m[2:5], [len(x) for x in m[5]])), "code": repr((r[0], r[2:5], [len(x) for x in r[5]])),
+                                    "array_equal": m[1] == r[1]})
+                if m[3]:
+                    ctx.count("arm_exceed_flag_set_at_end")
+            if kind == "arm_domain":
+                if ctx.km is not None and i % 20 == 0 and ctx.km.call("conn_arm_fits", str(largest).encode(), msgs, chunks) != b"1":
+                    ctx.tie_broken("generator produced a stream outside the domain of C14_reassembly_arm", {"largest": largest})
+                if r[5] != msgs or r[2] != 0 or r[3] or r[4] != 0:
+                    ctx.violation("__arm__ build: deliveries differ from the messages of a stream within the bounds of C14_reassembly_arm",
+                                  {"arm": True, "largest": largest, "preamble": p, "chunks": chunks, "expected": msgs,
+                                   "observed_lengths": [len(x) for x in r[5]], "finding_key": "arm:reassembly"})
+            if i < 1:
+                ctx.sample({"arm": True, "largest": largest, "preamble": p.hex(), "chunks": [c.hex()[:40] for c in chunks][:6], "delivered": len(r[5])})
+        # K-C14-3: the chunk bound is forced
+        k3 = k3_case()
+        ctx.case(("arm-k3",))
+        if not arm_replay(probe, k3):
+            ctx.count("arm_chunk_bound_case_loses_a_message")
+            ctx.violation("__arm__ build: a chunk that exceeds the fragment buffer together with the pending bytes loses the pending message", k3)
+        else:
+            ctx.count("arm_chunk_bound_case_delivered")
+    finally:
+        probe.close()
 
 
 def _run(ctx, probe, exe):
     rng = ctx.rng
     # 1 corpus
     for path in sorted(glob.glob(os.path.join(VERIF, "corpus", "C14", "*.json"))):
+        if os.path.basename(path).startswith("arm-"):
+            continue          # replayed by run_arm against the __arm__ build
         data = unjson(json.load(open(path)))
         ctx.case(("corpus", path))
         if not _replay(probe, exe, data):
@@ -375,6 +494,17 @@ def replay(ctx, data):
     if data.get("no_failing_input_found"):
         print(json.dumps(data.get("no_longer_checks"), indent=1)[:3000])
         return False
+    if data.get("arm"):
+        with kj.scratch() as d:
+            exe, out = conn.compile_probe_arm(d)
+            if exe is None:
+                print(out[-2000:])
+                return False
+            probe = conn.Probe(exe)
+            try:
+                return arm_replay(probe, data)
+            finally:
+                probe.close()
     with kj.scratch() as d:
         exe, out = conn.compile_probe(d)
         if exe is None:
